@@ -219,7 +219,7 @@ template <class T> inline FactorProblem<T> gen_factor_problem(Choice &c, Ctx &cx
     if (P.ilu) m = n;
     std::string family;
     bool stress = !P.ilu && c.chance(64);
-    GMat G;
+    GMat G; int tailk = 0;
     if (stress) {
         // fill-heavy: a dense leading row and column block with a dominant diagonal, natural ordering, tiny supernodes.  The part of U
         // outside the supernodes then outgrows a fill estimate of 1..2 times nnz(A), so UCOL/USUB (and LSUB) must grow during
@@ -229,6 +229,15 @@ template <class T> inline FactorProblem<T> gen_factor_problem(Choice &c, Ctx &cx
         std::vector<std::vector<int>> pat(n);
         for (int j = 0; j < n; ++j) for (int i = 0; i < n; ++i) if (i == j || i < k || j < k || (c.chance(24))) pat[j].push_back(i);
         family = "fill-heavy-arrow";
+        // variant: an independent bidiagonal chain of kt columns appended as the last diagonal block.  With relax >= kt it is a
+        // multi-column relaxed supernode that is factored last, after U already holds entries (the subscripts of such a
+        // supernode are stored twice, which is one more place where the L subscript array has to grow).
+        tailk = c.chance(90) ? 2 + (int)c.below(5) : 0;
+        if (tailk) {
+            int n0 = n; n += tailk; m = n; pat.resize(n);
+            for (int j = n0; j < n; ++j) { pat[j].push_back(j); if (j + 1 < n) pat[j].push_back(j + 1); }
+            family = "fill-heavy-arrow+tail-chain";
+        }
         G = gen_values(c, m, n, pat, cplx, single, family, false);
         for (int j = 0; j < n; ++j) { double s = 1; for (auto &e : G.col[j]) if (e.first != j) s += std::fabs(e.second.re) + std::fabs(e.second.im); for (auto &e : G.col[j]) if (e.first == j) { e.second.re = 4 * s; e.second.im = 0; } }
         G.vkind += "+dominant";
@@ -237,7 +246,8 @@ template <class T> inline FactorProblem<T> gen_factor_problem(Choice &c, Ctx &cx
         G = gen_values(c, m, n, pat, cplx, single, family);
     }
     P.o = gen_opts(c, n, single, m == n, false); P.o.nr = false;
-    if (stress) { P.o.colperm = NATURAL; P.o.symmetric = false; P.o.tune.stock = false; P.o.tune.v[0] = 0; P.o.tune.v[1] = 1 + (int)c.below(3); P.o.tune.v[2] = 1; P.o.tune.v[3] = 1 + (int)c.below(2); P.o.tune.v[4] = 1 + (int)c.below(4); P.o.tune.v[5] = 1 + (int)c.below(4); P.o.tune.v[6] = 1; P.o.tune.v[7] = 2; cx.label("stress=fill-heavy"); P.stress = true; }
+    if (stress) { P.o.colperm = NATURAL; P.o.symmetric = false; P.o.tune.stock = false; P.o.tune.v[0] = 0; P.o.tune.v[1] = 1 + (int)c.below(3); P.o.tune.v[2] = 1; P.o.tune.v[3] = 1 + (int)c.below(2); P.o.tune.v[4] = 1 + (int)c.below(4); P.o.tune.v[5] = 1 + (int)c.below(4); P.o.tune.v[6] = 1; P.o.tune.v[7] = 2; cx.label("stress=fill-heavy"); P.stress = true;
+                  if (tailk) { P.o.tune.v[2] = tailk + (int)c.below(3); P.o.tune.v[3] = std::max(P.o.tune.v[3], P.o.tune.v[2]); cx.label("stress=tail-relaxed"); } }
     if (P.ilu) { P.io = gen_ilu_opts(c); route_ilu(P.io, cx); }
     P.m = m; P.n = n;
     P.S = to_comp<T>(G, false, P.o.shuffle_rows ? &c : nullptr);
